@@ -255,11 +255,12 @@ Section D3.
 
   Lemma den_one_attr3 st a w st' (dst : S.dstate) :
     sub st' -> attr_ok3 L a = true -> S.ds_attrcp dst = attrcp st ->
+    (match at_name a with AttrTok p t _ _ => S.is_datetime_attr (l_id L) p t = false | AttrLit _ => True end) ->
     abs_attr e st a = Some (w, st') ->
     exists dst', S.den_attr (S.mk_denv L tb) w dst = Some (fst (attr_event a), at_value a, dst') /\ S.ds_attrcp dst' = attrcp st' /\
                  S.ds_tagcp dst' = S.ds_tagcp dst /\ S.ds_cur dst' = S.ds_cur dst.
   Proof.
-    intros Hsub Hok Hcp. unfold attr_ok3 in Hok. apply andb_true_iff in Hok as [Hval Hok].
+    intros Hsub Hok Hcp Hnd. unfold attr_ok3 in Hok. apply andb_true_iff in Hok as [Hval Hok].
     unfold abs_attr, abs_attr_start, attr_event. cbv zeta. rewrite (okb_cstr _ Hval).
     destruct (at_name a) as [p t nm oval|nm]; cbn [fst].
     - (* token start *)
@@ -282,7 +283,7 @@ Section D3.
       destruct START as (dst1 & DS & A1 & B1 & C1).
       assert (FIN : forall v dst2, S.den_attr_raw (S.mk_denv L tb) w dst = Some (P.AttrTok p t nm, v, dst2) ->
                     S.den_attr (S.mk_denv L tb) w dst = Some (P.AttrTok p t nm, v, dst2)).
-      { intros v dst2 R. unfold S.den_attr. rewrite R. destruct v; [reflexivity|]. cbn [S.de_lang]. now rewrite (not_datetime L e HE HP). }
+      { intros v dst2 R. unfold S.den_attr. rewrite R. destruct v; [reflexivity|]. cbn [S.de_lang]. now rewrite Hnd. }
       destruct (a_value r) as [rv|] eqn:RV; destruct oval as [xv|]; try discriminate.
       + apply andb_true_iff in Hvv as [Hxv Hpre]. apply beq_eq in Hxv. rewrite Hpre.
         pose proof (is_prefix_split xv _ Hpre) as Hsplit.
@@ -335,7 +336,9 @@ Section D3.
       destruct (abs_attr e st a) as [[w st1]|] eqn:A; [|discriminate].
       destruct (abs_attrs e st1 r) as [[ws' st2]|] eqn:R; [|discriminate]. intros E; injection E as <- <-.
       assert (Hs1 : sub st1) by (apply (sub_ext _ _ (proj1 (abs_attrs_sx _ _ _ _ _ R))); exact Hs).
-      destruct (den_one_attr3 st a w st1 dst Hs1 Ha Hcp A) as (dst1 & D1' & A1 & B1 & C1).
+      assert (Hnd : match at_name a with AttrTok p t _ _ => S.is_datetime_attr (l_id L) p t = false | AttrLit _ => True end)
+        by (destruct (at_name a); [apply (not_datetime L e HE HP)|exact I]).
+      destruct (den_one_attr3 st a w st1 dst Hs1 Ha Hcp Hnd A) as (dst1 & D1' & A1 & B1 & C1).
       destruct (IH st1 ws' st2 dst1 Hs Hr A1 R) as (dst2 & D2' & A2 & B2 & C2).
       exists dst2. cbn [S.den_attrs]. rewrite D1', D2'. unfold attr_event at 1. cbn [fst].
       repeat split; congruence.
